@@ -776,8 +776,9 @@ def _scan_lines(state: TokenizerState, readline: Callable[[], str]) -> Iterator[
             yield from handle_end_progs(state)
             if token := next_psuedo_matches(state):
                 yield token
-            elif pos == state.pos and not state.line[pos].isascii() and state.line[pos].isidentifier():
-                # an identifier start that \w does not cover (U+2118, U+212E, U+1885, U+1886)
+            elif pos == state.pos and not state.line[pos].isascii() and ("a" + state.line[pos]).isidentifier():
+                # an identifier character that \w does not cover: a start (U+2118, U+212E, U+1885, U+1886), or a
+                # continuation (combining mark) right after a token that is no name (the word 1e\u0301 in a subprocess)
                 end = pos + 1
                 while end < state.max and ("a" + state.line[end]).isidentifier():
                     end += 1
